@@ -118,7 +118,7 @@ PROPS = {
                 "from its own non-const arguments; (ii) block functions and dispatchers have an empty frame on the shared schedule / object; (iii) no "
                 "object file of the library contains a writable object of static storage duration (objdump section scan); the CPU probes have assigns().",
         "assumptions": ["C11 memory model: disjoint write footprints + read-only sharing => no data race (trusted)", "no interleaving is executed"],
-        "static": [static_checks.c18_no_mutable_statics],
+        "static": [static_checks.c18_no_mutable_statics, static_checks.c18_readers_call_no_writers],
     },
     "C13": {
         "claimed": True,
